@@ -992,7 +992,29 @@ pub fn supervise(args: &[String]) -> i32 {
                 }
             }
             if verdict == 2 {
-                println!("INCONCLUSIVE: worker for {id} died ({status}) and no single breadcrumb case reproduces it");
+                // No single case kills a fresh process.  Memory corruption often needs the allocations of the cases
+                // before it: run the whole (deterministic) check once more; if it dies again the crash belongs to this
+                // tree and seed, and the replay file re-runs the whole check.
+                let mut again = std::process::Command::new(std::env::current_exe().unwrap());
+                again.args(&args[1..]).arg("--worker").stdout(std::process::Stdio::null());
+                let st2 = again.status().expect("spawn worker again");
+                if !matches!(st2.code(), Some(0 | 1 | 2)) {
+                    let out_dir = format!("{}/replays", verif_dir());
+                    let _ = std::fs::create_dir_all(&out_dir);
+                    let seed = std::env::var("VERIF_SEED").unwrap_or_default();
+                    let path = format!("{out_dir}/{id}-whole-run-crash-{:016x}.json", hash_words(&[seed.len() as u64, args.len() as u64]));
+                    let body = serde_json::json!({
+                        "property": id, "signature": "process-crash-whole-run", "whole_run": true,
+                        "args": args[1..].to_vec(), "verif_seed": seed,
+                        "message": format!("the check process terminated abnormally twice ({status}, then {st2}) on the same deterministic sequence of cases; no single case reproduces it in a fresh process"),
+                    });
+                    std::fs::write(&path, serde_json::to_string_pretty(&body).unwrap()).unwrap();
+                    println!("--- the whole run of {id} kills the process twice ({status}, {st2}); replay with ./check --replay {path}");
+                    println!("VIOLATION property={id} replay={path}");
+                    verdict = 1;
+                } else {
+                    println!("INCONCLUSIVE: worker for {id} died ({status}); no single breadcrumb case reproduces it and a second full run ended with {st2}");
+                }
             }
             verdict
         },
